@@ -187,3 +187,82 @@ pub fn check_flush(c: &FlushCase, cx: &mut Cx) -> vcore::Res {
         Err(msg) => cx.fail("file-e2e/flush-true-but-not-synced", msg),
     }
 }
+
+// ---------------------------------------------------------------------------------------------
+// Channel laws of the file emitter's batch type (C09: "emitter-specific channels implement len/clear")
+
+#[derive(Serialize, Deserialize, Debug, Clone, PartialEq)]
+pub enum BOp {
+    Push(u8),
+    Clear,
+    /// hand the batch to a worker whose n-th write fails, take the remainder back
+    FailAt(u8),
+}
+
+pub fn batch_ops() -> impl Strategy<Value = Vec<BOp>> {
+    prop::collection::vec(prop_oneof![6 => (0u8..40).prop_map(BOp::Push), 2 => Just(BOp::Clear), 1 => (0u8..12).prop_map(BOp::FailAt)], 1..30)
+}
+
+/// After any push/clear sequence `len()` equals the number of items a model queue holds, `clear()` gives 0,
+/// and a batch handed back for retry after a failed write still holds every item (the whole batch is retried).
+pub fn check_batch_laws(ops: &Vec<BOp>, cx: &mut Cx) -> vcore::Res {
+    use emit_file::verif as hook;
+    let mut batch = hook::Batch::new();
+    let mut model: Vec<Vec<u8>> = Vec::new();
+    let mut n = 0u32;
+    for op in ops {
+        match op {
+            BOp::Push(k) => {
+                n += 1;
+                let mut ev = format!("<e{n}:{}>", "y".repeat(*k as usize)).into_bytes();
+                ev.push(b'\n');
+                batch.push(&ev);
+                model.push(ev);
+            }
+            BOp::Clear => {
+                batch.clear();
+                model.clear();
+                cx.class("batch-laws:clear");
+                if batch.len() != 0 {
+                    return cx.fail("C09/file-batch/len-after-clear", format!("len() = {} right after clear()", batch.len()));
+                }
+            }
+            BOp::FailAt(k) => {
+                if model.is_empty() {
+                    continue;
+                }
+                cx.class("batch-laws:failed-write");
+                let fs = Fs::default();
+                // op indices: 0 create_dir_all, 1 read_dir, 2 open_new, 3 sync_parent, then one write per event
+                fs.0.lock().unwrap().plan.insert(4 + (*k as usize % model.len()), crate::FaultKind::PartialErr(2));
+                let mut worker = hook::Worker::new(
+                    fs.clone(),
+                    VClock(Arc::new(Mutex::new(EPOCH_2024_MS))),
+                    VRng(Arc::new(Mutex::new(1))),
+                    hook::Config { file_set: PathBuf::from("logs/b.txt"), roll_by: hook::Roll::Hour, reuse_files: false, max_files: 4, max_file_size_bytes: 1 << 30, separator: b"\n" },
+                )
+                .map_err(|e| vcore::Fail::new("C09/file-batch/config", e.to_string()))?;
+                match worker.on_batch(std::mem::replace(&mut batch, hook::Batch::new())) {
+                    Err(Some(rem)) => batch = rem,
+                    Ok(()) => {
+                        model.clear();
+                    }
+                    Err(None) => {
+                        model.clear();
+                    }
+                }
+            }
+        }
+        if batch.len() != model.len() {
+            return cx.fail(
+                "C09/file-batch/len-differs-from-model",
+                format!("after {op:?}: len() = {} but the batch holds {} items by the model", batch.len(), model.len()),
+            );
+        }
+        if batch.remaining() != model {
+            return cx.fail("C09/file-batch/content-differs-from-model", format!("after {op:?}: content differs from the model"));
+        }
+    }
+    cx.nontrivial(ops.iter().any(|o| matches!(o, BOp::Clear | BOp::FailAt(_))) && ops.iter().filter(|o| matches!(o, BOp::Push(_))).count() >= 2);
+    Ok(())
+}
